@@ -250,7 +250,9 @@ func apiBig(rng *rand.Rand, nf int) *ir.Module {
 // corpus assembles the modules of a run.
 func corpus(tier string, rng *rand.Rand) (subs []*subject, rejected []string) {
 	subs, rejected = parsedFiles()
-	add := func(name, origin string, m *ir.Module) { subs = append(subs, &subject{Name: name, Origin: origin, M: m}) }
+	add := func(name, origin string, m *ir.Module) {
+		subs = append(subs, &subject{Name: name, Origin: origin, M: m})
+	}
 	add("api:empty", "api", ir.NewModule())
 	hdr := ir.NewModule()
 	hdr.SourceFilename = "a\\b\"c"
